@@ -209,6 +209,12 @@ pub fn generate(rng: &mut Rng, tier: Tier) -> Plan {
             _ => {}
         }
     }
+    // a linear curve whose extrapolation at weight 2 is exactly zero: (2c, c) at the end
+    let exact_zero = interp == "linear" && n >= 2 && rng.chance(0.08);
+    if exact_zero {
+        let c = nodes[n - 1].num.value();
+        nodes[n - 2].num = nodes[n - 2].num.with_value(2.0 * c);
+    }
     // queries: node dates, midpoints, two interior points per interval, before and after
     let mut queries: Vec<i64> = Vec::new();
     for w in nodes.windows(2) {
@@ -898,6 +904,61 @@ fn probe(
                 (w, wi)
             })
             .clone();
+        // a looked-up value of exactly zero (linear extrapolation can produce it from positive
+        // nodes): the value must be zero at every order and the index value base/0 = +-inf;
+        // derivatives of 1/0 are not compared
+        if want.v.x == 0.0 {
+            let got = call(P, "Curve::value", || sut.value(&d))?;
+            let s = see(&got);
+            if s.kind != order || !want.v.close(s.real) {
+                return Err(annotate(
+                    v(
+                        &format!("value-vs-closed-form|value|{}", ctx),
+                        format!("value = {:e} (kind {}), closed form gives exactly 0", s.real, s.kind),
+                    ),
+                    seq,
+                    *q,
+                    c.ctor,
+                ));
+            }
+            if let (Some(b), true) = (model.base, *q >= first_ts) {
+                if s.real == 0.0 {
+                    let expect = b / s.real;
+                    match call(P, "Curve::index_value", || sut.index_value(&d))? {
+                        Ok(n) => {
+                            let r = see(&n).real;
+                            if r.to_bits() != expect.to_bits() && !(r.is_nan() && expect.is_nan()) {
+                                return Err(annotate(
+                                    v(
+                                        &format!("index-value-at-zero-value|{}", ctx),
+                                        format!(
+                                            "index_value = {:e} where the curve value is exactly 0; base/value = {:e}",
+                                            r, expect
+                                        ),
+                                    ),
+                                    seq,
+                                    *q,
+                                    c.ctor,
+                                ));
+                            }
+                            obs.count("reach.index_value_at_exactly_zero_value");
+                        }
+                        Err(()) => {
+                            return Err(annotate(
+                                v(
+                                    &format!("index-value-error|{}", ctx),
+                                    "index_value returned an error on a curve with index_base".into(),
+                                ),
+                                seq,
+                                *q,
+                                c.ctor,
+                            ))
+                        }
+                    }
+                }
+            }
+            continue;
+        }
         // far outside any sensible regime (the squares that second derivatives need would
         // overflow or underflow): no verdict
         if !want.v.x.is_finite() || want.v.x.abs() < 1e-60 || want.v.x.abs() > 1e60 {
